@@ -4,7 +4,7 @@
 (* after a complete block), all suffixes over the 16-symbol alphabet up to    *)
 (* MaxSuffix steps.  Every explored input is exported with the blocks the     *)
 (* specification assigns to it (T2).                                          *)
-EXTENDS BibSplitter, SequencesExt, Json
+EXTENDS BibGrammar, Json
 CONSTANTS MaxSuffix, PrefixSel      \* PrefixSel: set of indices into PrefixLib
 VARIABLES toks, s, n
 vars == <<toks, s, n>>
@@ -15,7 +15,7 @@ T == [ATE |-> [k |-> "ATE", w |-> 10], ATC |-> [k |-> "ATC", w |-> 11], ATP |-> 
       ATS |-> [k |-> "ATS", w |-> 13], LB |-> [k |-> "LB", w |-> 1], RB |-> [k |-> "RB", w |-> 2],
       QT |-> [k |-> "QT", w |-> 3], CM |-> [k |-> "CM", w |-> 4], EQ |-> [k |-> "EQ", w |-> 5],
       NL |-> [k |-> "NL", w |-> 6], SP |-> [k |-> "SP", w |-> 7], ESC |-> [k |-> "ESC", w |-> 8],
-      W1 |-> [k |-> "W", w |-> 21], W2 |-> [k |-> "W", w |-> 22], WB |-> [k |-> "W", w |-> 23], WA |-> [k |-> "W", w |-> 24]]
+      HASH |-> [k |-> "H", w |-> 9], W1 |-> [k |-> "W", w |-> 21], W2 |-> [k |-> "W", w |-> 22], WB |-> [k |-> "W", w |-> 23], WA |-> [k |-> "W", w |-> 24]]
 Alphabet == DOMAIN T
 Of(names) == [i \in DOMAIN names |-> T[names[i]]]
 
@@ -36,7 +36,7 @@ PrefixLib == <<
   <<"ATE","LB","W1","CM","NL","W2","EQ","LB","NL">>,
   <<"ATE","LB","W1","CM","EQ","W1","CM">>, <<"ATS","LB","EQ">>, <<"ATE","LB","CM">>
 >>
-WClass == {"W1", "W2", "WA", "WB"}
+WClass == {"W1", "W2", "WA", "WB", "HASH"}
 
 Init == \E p \in PrefixSel :
           /\ toks = Of(PrefixLib[p])
@@ -45,7 +45,7 @@ Init == \E p \in PrefixSel :
 Next == /\ n < MaxSuffix
         /\ \E a \in Alphabet :
              \* adjacent plain-text tokens would lex as one token; a lone backslash is generated before a newline only
-             /\ ~(Len(toks) > 0 /\ toks[Len(toks)].k = "W" /\ a \in WClass)
+             /\ ~(Len(toks) > 0 /\ toks[Len(toks)].k \in {"W", "H"} /\ a \in WClass)
              /\ ~(Len(toks) > 0 /\ toks[Len(toks)].k = "SP" /\ a = "SP")
              /\ ~(Len(toks) > 0 /\ toks[Len(toks)].w = 23 /\ a # "NL")
              /\ ~(Len(toks) > 0 /\ toks[Len(toks)].w = 24 /\ a \in {"LB", "SP"})
@@ -54,7 +54,7 @@ Next == /\ n < MaxSuffix
                 IN /\ toks' = t2
                    /\ s' = RunFrom(t2, NoFe, s, Len(toks) + 1)
                    /\ n' = n + 1
-                   /\ PrintT(ToJson([w |-> [i \in DOMAIN t2 |-> t2[i].w], out |-> Finish(t2, NoFe, s')]))
+                   /\ PrintT(ToJson([w |-> [i \in DOMAIN t2 |-> t2[i].w], out |-> Finish(t2, NoFe, s'), g |-> Recognise(t2).ok]))
 
 Out == Finish(toks, NoFe, s)
 InvNoInternalError == s.ctl # "ERR"
@@ -64,6 +64,8 @@ InvFieldLines  == FieldLines(toks, Out)
 InvFailedCarry == FailedCarry(toks, Out)
 InvShapes      == Shapes(toks, Out)
 InvIncremental == Run(toks, NoFe) = Out                       \* incremental exploration = one run over the whole input
+\* C02 on the model: on every input of the dialect the scanner yields exactly the grammar's blocks, none failed
+InvGrammar == LET g == Recognise(toks) IN g.ok => g.blocks = Out /\ \A x \in DOMAIN Out : ~IsFailed(Out[x])
 \* C04 lemma 1: a closed block is never revised
 PrefixStable == [][IsPrefix(s.out, s'.out)]_vars
 \* C04 lemma 2: an @type token resynchronises the scanner whatever came before
